@@ -38,6 +38,8 @@ MUTANTS = [
     m('B01-12', 'try_create: size += 1 after the post_create hooks', ['C01'], ['R01.5'],
       (M, "        self.inner.slots.lock().unwrap().size += 1;\n\n        // Apply post_create hooks", "        // Apply post_create hooks"),
       (M, "            return Err(PoolError::PostCreateHook(e));\n        }\n\n        Ok(Some(unready_obj.ready()))", "            return Err(PoolError::PostCreateHook(e));\n        }\n        self.inner.slots.lock().unwrap().size += 1;\n\n        Ok(Some(unready_obj.ready()))")),
+    m('B01-13', 'return_object: permit released before the object is queued (woken waiter creates one too many)', ['C01'], ['R01.4'],
+      (M, "            slots.vec.push_back(inner);\n            drop(slots);\n            self.semaphore.add_permits(1);", "            drop(slots);\n            self.semaphore.add_permits(1);\n            self.slots.lock().unwrap().vec.push_back(inner);")),
 ]
 
 MUTANTS += [
